@@ -195,6 +195,11 @@ Proof.
     repeat match goal with H : _ /\ _ |- _ => destruct H | H : exists _, _ |- _ => destruct H end.
   all: repeat split; auto; try lia.
   all: try (intros j Hj; rewrite rnth_app by lia; ruse j; lia).
+  all: try (match goal with
+            | f : option bool, H : In (_, _, true) (_ ++ _) |- _ =>
+                destruct f as [[|]|];
+                (apply in_app_or in H; destruct H as [H|[H|[]]]; [ specialize (Ifl _ _ H); lia | inversion H ])
+            end; fail).
   all: eexists; split; [eassumption|]; repeat split; auto; try lia.
   all: try (intros Hx; match goal with H : after_collect _ = true -> _ |- _ => destruct (H Hx) as [? ?] end; split; [lia|];
             intros j Hj; rewrite rnth_app by lia; ruse j; lia).
@@ -236,9 +241,9 @@ Proof.
       * unfold raccept_coll in H. destruct p; try discriminate H.
         destruct (r_fly s) as [c'|] eqn:F; auto. apply (q_fly s I) in F. destruct F as [m F]. congruence.
       * unfold raccept_app in H. destruct (r_ap s (S t)); try discriminate H.
-        all: try (destruct fl; discriminate H).
+        all: try (destruct last; destruct fl; discriminate H).
     + unfold raccept_app in H. destruct (r_ap s (S t)); try discriminate H.
-      all: try (destruct fl; discriminate H).
+      all: try (destruct last; destruct fl; discriminate H).
 Qed.
 
 (* C02: once a Shutdown call has returned, no Export is ever started again *)
@@ -249,7 +254,7 @@ Proof.
   pose proof (q_shdone s I D) as J. destruct (q_joined s I J) as (C & W & S1).
   unfold raccept; cbn [fst snd]. destruct t as [|t].
   - rewrite J. reflexivity.
-  - rewrite C. unfold raccept_app. destruct (r_ap s (S t)); try reflexivity. destruct fl; reflexivity.
+  - rewrite C. unfold raccept_app. destruct (r_ap s (S t)); try reflexivity. destruct last; destruct fl; reflexivity.
 Qed.
 
 (* C02: a ForceFlush that returned true with ticket k: an Export of a collection that saw at least everything recorded
@@ -269,7 +274,7 @@ Proof.
   unfold raccept_app in H. destruct (r_ap s (S t)); try discriminate H.
   - destruct (Nat.eqb old (r_pending s)) eqn:E; [|discriminate H]. apply Nat.eqb_eq in E. inversion H; subst; simpl.
     unfold rmark; simpl. split; auto. replace (r_pending s - 0) with (length (r_marks s)) by lia. apply nth_middle.
-  - destruct fl; discriminate H.
+  - destruct last; destruct fl; discriminate H.
 Qed.
 
 Example periodic_demo :
